@@ -80,9 +80,9 @@ type CoreResult struct {
 	// index (an index was re-used after a removal) or an indexed reference matched more
 	// than one connection; from then on "the connection with index i" is not well defined.
 	AmbiguousSeen bool
-	Root    *CoreObj
-	Edges   []*CoreEdge // live, creation order
-	removed map[string]bool
+	Root          *CoreObj
+	Edges         []*CoreEdge // live, creation order
+	removed       map[string]bool
 	// Removed: objects that were removed by a null, by folded path (last removal).
 	Removed map[string]*CoreObj
 	// RemovedScopedOut: sticky per path — some removal of this path happened while a
